@@ -20,6 +20,10 @@ def handleDegree : List String → Option String
   | ["binom", k, i] => do
       let k ← k.toNat?; let i ← i.toNat?
       return toString (binomialCoefficient k i)
+  | ["binomrow", k] => do
+      -- the whole row C(k,0) .. C(k,k+2) through the same model function (one case for the float-mode companion)
+      let k ← k.toNat?
+      return ",".intercalate ((List.range (k + 3)).map (fun i => toString (binomialCoefficient k i)))
   | ["elev", p, num, ps] => do
       let p ← p.toNat?; let num ← num.toInt?; let P ← parsePts ps
       if !rectOk P then return "ERR"
